@@ -16,7 +16,7 @@ namespace MdIt.C07
 included) returns with the frame fields of its entry state -/
 theorem frame (P : BState → Nat → Prop) (hP : FrameClosed P) (rules : List BRule) (hok : ∀ r ∈ rules, RuleOK P r)
     (hlast : ∃ r ∈ rules, AlwaysMatches P r)
-    (maxNesting : Int) (s : BState) (startLine endLine : Nat) (hlen : s.lines.length = s.lineMax + 1)
+    (maxNesting : Int) (s : BState) (startLine endLine : Nat) (hlen : s.lineMax + 1 ≤ s.lines.length)
     (hend : endLine ≤ s.lineMax) (hPs : P s endLine) :
     ∃ s', blockTokenize rules maxNesting s startLine endLine = .ok s' ∧ s'.lines = s.lines ∧ s'.lineMax = s.lineMax
       ∧ s'.blkIndent = s.blkIndent ∧ s'.level = s.level := by
@@ -28,7 +28,7 @@ ranges (C03.loop_maps_staged): the tokens of a later block never reach back into
 earlier one -/
 theorem stages (P : BState → Nat → Prop) (hP : FrameClosed P) (rules : List BRule) (hok : ∀ r ∈ rules, RuleOK P r)
     (hmap : ∀ r ∈ rules, C03.MapOK P r)
-    (maxNesting : Int) (s s' : BState) (startLine endLine : Nat) (hlen : s.lines.length = s.lineMax + 1)
+    (maxNesting : Int) (s s' : BState) (startLine endLine : Nat) (hlen : s.lineMax + 1 ≤ s.lines.length)
     (hend : endLine ≤ s.lineMax) (hPs : P s endLine) (h : blockTokenize rules maxNesting s startLine endLine = .ok s') :
     ∃ new, s'.tokens = s.tokens ++ new ∧ C03.Staged startLine s.lineMax new :=
   C03.loop_maps_staged P hP rules hok hmap maxNesting endLine _ startLine false s s' hlen hend hPs h
